@@ -13,6 +13,7 @@ import (
 	"verif/checker/internal/effects"
 	"verif/checker/internal/load"
 	"verif/checker/internal/report"
+	"verif/checker/internal/rules"
 )
 
 // A Mutant is an in-memory edit of one file of /repo used to validate a rule:
@@ -109,6 +110,7 @@ func runMutant(prop, name string) int {
 		return emit()
 	}
 	effects.Of(prog) // same order as runProperty
+	rules.InstallPredicates(prog)
 	defer func() {
 		if r := recover(); r != nil {
 			out.Status, out.Detail = "error", fmt.Sprint("panic: ", r)
